@@ -4,6 +4,7 @@ import (
 	"encoding/json"
 	"sort"
 	"strings"
+	"time"
 
 	"github.com/woodsbury/jmespath/internal/simrt"
 )
@@ -14,13 +15,15 @@ import (
 // behave exactly as they would for a user.
 
 type shrinker struct {
-	test  func(*Workload) bool
-	tests int
-	limit int
+	test     func(*Workload) bool
+	tests    int
+	limit    int
+	deadline time.Time
 }
 
 func (s *shrinker) try(w *Workload) bool {
-	if s.tests >= s.limit {
+	if s.tests >= s.limit || time.Now().After(s.deadline) {
+		s.tests = s.limit
 		return false
 	}
 	s.tests++
@@ -153,8 +156,15 @@ func deletionPaths(v any, prefix []pathStep, depth int) [][]pathStep {
 	}
 	switch x := v.(type) {
 	case []any: // plain array of values
-		for i := range x {
-			out = append(out, append(append([]pathStep(nil), prefix...), pathStep{idx: i, n: 1}))
+		for sz := len(x) / 2; sz >= 2; sz /= 2 {
+			for i := 0; i+sz <= len(x); i += sz {
+				out = append(out, append(append([]pathStep(nil), prefix...), pathStep{idx: i, n: sz}))
+			}
+		}
+		if len(x) <= 64 {
+			for i := range x {
+				out = append(out, append(append([]pathStep(nil), prefix...), pathStep{idx: i, n: 1}))
+			}
 		}
 		for i, el := range x {
 			out = append(out, deletionPaths(el, append(append([]pathStep(nil), prefix...), pathStep{idx: i}), depth+1)...)
@@ -165,6 +175,11 @@ func deletionPaths(v any, prefix []pathStep, depth int) [][]pathStep {
 		}
 		if o, ok := x["o"].([]any); ok {
 			base := append(append([]pathStep(nil), prefix...), pathStep{key: "o"})
+			for sz := (len(o) / 4) * 2; sz >= 4; sz = (sz / 4) * 2 {
+				for i := 0; i+sz <= len(o); i += sz {
+					out = append(out, append(append([]pathStep(nil), base...), pathStep{idx: i, n: sz}))
+				}
+			}
 			for i := 0; i+1 < len(o); i += 2 {
 				out = append(out, append(append([]pathStep(nil), base...), pathStep{idx: i, n: 2}))
 			}
@@ -176,7 +191,12 @@ func deletionPaths(v any, prefix []pathStep, depth int) [][]pathStep {
 			out = append(out, deletionPaths(v2, append(append([]pathStep(nil), prefix...), pathStep{key: "v"}), depth+1)...)
 		}
 	}
-	sort.SliceStable(out, func(a, b int) bool { return len(out[a]) < len(out[b]) })
+	sort.SliceStable(out, func(a, b int) bool {
+		if len(out[a]) != len(out[b]) {
+			return len(out[a]) < len(out[b])
+		}
+		return out[a][len(out[a])-1].n > out[b][len(out[b])-1].n
+	})
 	return out
 }
 
@@ -227,8 +247,8 @@ func deleteAt(v any, path []pathStep) (any, bool) {
 }
 
 // Shrink greedily minimises w while test keeps succeeding.
-func Shrink(w *Workload, test func(*Workload) bool, limit int) (*Workload, int) {
-	s := &shrinker{test: test, limit: limit}
+func Shrink(w *Workload, test func(*Workload) bool, limit int, budget time.Duration) (*Workload, int) {
+	s := &shrinker{test: test, limit: limit, deadline: time.Now().Add(budget)}
 	progress := true
 	for progress && s.tests < s.limit {
 		progress = false
